@@ -107,10 +107,10 @@ def check(run):
     r = gen.rng_for(run.seed, "c13")
     specs = []
     k = 0
-    want = 1500 if thorough else 240
+    want = 4000 if thorough else 700
     while len(specs) < want:
         k += 1
-        g = r.choice([None, None, None, "T", "a", "aT", "aTw", "I", "aI", "N", "TU", "Tw"])
+        g = r.choice([None, None, None, "T", "a", "aT", "aTw", "I", "aI", "N", "TU", "Tw", "Tdef", "TNdef"])
         s = build(r, "E%d" % k, generics=g)
         if s is not None:
             specs.append(s)
